@@ -41,7 +41,8 @@ func (m *Meta) Encode() ([]byte, error) {
 		return nil, err
 	}
 
-	return buf.Bytes(), nil
+	// buf goes back to the pool, return a copy
+	return bytes.Clone(buf.Bytes()), nil
 }
 
 func (m *Meta) Decode(data []byte) error {
